@@ -65,7 +65,8 @@ func GenFloatToken(t *rapid.T, plain bool) string {
 	}
 }
 
-var stringRunes = []rune("abcXYZ019 _-./\\\"'`$%{}[]<>:,#\n\té世\U0001F600\u0001\u007f")
+// ('$' is left out: mrp expands environment variables in invocation source.)
+var stringRunes = []rune("abcXYZ019 _-./\\\"'`%{}[]<>:,#\n\té世\U0001F600\u0001\u007f")
 
 func GenString(t *rapid.T, plain bool) string {
 	if plain {
